@@ -48,6 +48,7 @@ std::vector<K> make_queries(const std::vector<K> &data, Rng &rng, size_t budget)
     auto add = [&](Wide<K> v) { if (v >= (Wide<K>) L::lowest() && v < (Wide<K>) L::max()) queries.push_back(K(v)); };
     add((Wide<K>) L::lowest()); add((Wide<K>) L::max() - 1);
     add((Wide<K>) data.front() - 1); add((Wide<K>) data.front() - 2); add((Wide<K>) data.back() + 1); add((Wide<K>) data.back() + 2); add((Wide<K>) data.back());
+    add((Wide<K>) data.front()); add((Wide<K>) 0);
     std::vector<size_t> firsts;
     for (size_t i = 0; i < n; ++i) if (i == 0 || data[i] != data[i - 1]) firsts.push_back(i);
     std::vector<size_t> picks;
@@ -62,6 +63,23 @@ std::vector<K> make_queries(const std::vector<K> &data, Rng &rng, size_t budget)
     std::sort(queries.begin(), queries.end());
     queries.erase(std::unique(queries.begin(), queries.end()), queries.end());
     return queries;
+}
+
+// An answer may depend neither on the queries made before it nor on there having been any: the query plan is the probe
+// set, the same query twice in a row and early ones again, and then a few boundary queries each answered as the FIRST
+// query of a copy that was taken of the index before it answered anything.
+template<typename P, typename K>
+std::vector<std::pair<K, P *>> query_plan(P *idx, const std::vector<K> &queries, const std::vector<K> &data, Rng &rng, std::vector<std::unique_ptr<P>> &fresh) {
+    std::vector<std::pair<K, P *>> plan;
+    for (auto q : queries) plan.emplace_back(q, idx);
+    if (queries.empty()) return plan;
+    plan.emplace_back(queries.back(), idx); plan.emplace_back(queries.front(), idx); plan.emplace_back(queries[queries.size() / 2], idx);
+    if (data.size() <= 3000) {
+        std::vector<K> fq{queries.front(), queries.back(), data.front(), data.back(), K(0), queries[rng.below(queries.size())]};
+        for (auto q : fq)
+            if (std::find(queries.begin(), queries.end(), q) != queries.end()) { fresh.emplace_back(new P(*idx)); plan.emplace_back(q, fresh.back().get()); }
+    }
+    return plan;
 }
 
 template<typename K>
@@ -133,14 +151,17 @@ void run_bucketing(const VPlan &pl) {
     }
     o.end();
     if (res != "ok") { out.begin("End").end(); return; }
-    for (auto q : queries) {
-        auto r = idx->search(q);
+    std::vector<std::unique_ptr<P>> fresh;
+    for (auto &qp : query_plan(idx.get(), queries, data, rng, fresh)) {
+        K q = qp.first;
+        P *ix = qp.second;
+        auto r = ix->search(q);
         long long bk = -1, seg = -1, s0 = -1, s1 = -1;
-        if (q >= idx->firstk() && q <= idx->lastk()) {
-            bk = (long long) idx->bucket(q);
-            if (size_t(bk) + 1 < idx->top().size()) {
-                s0 = (long long) idx->top()[bk]; s1 = (long long) idx->top()[bk + 1];
-                seg = (long long) idx->seg_index(q);
+        if (q >= ix->firstk() && q <= ix->lastk()) {
+            bk = (long long) ix->bucket(q);
+            if (size_t(bk) + 1 < ix->top().size()) {
+                s0 = (long long) ix->top()[bk]; s1 = (long long) ix->top()[bk + 1];
+                seg = (long long) ix->seg_index(q);
                 if (seg > 2000000000LL) seg = -2;   // prev(begin): wrapped
             }
         }
@@ -190,10 +211,12 @@ void run_eliasfano(const VPlan &pl) {
     o.end();
     if (res != "ok") { out.begin("End").end(); return; }
     K first_key = Access::ef_first_key(*idx);
-    for (auto q : queries) {
-        auto r = idx->search(q);
+    std::vector<std::unique_ptr<P>> fresh;
+    for (auto &qp : query_plan(idx.get(), queries, data, rng, fresh)) {
+        K q = qp.first;
+        auto r = qp.second->search(q);
         K k = std::max(first_key, q);
-        auto pr = Access::ef_pred(*idx, uint64_t(k - first_key));
+        auto pr = Access::ef_pred(*qp.second, uint64_t(k - first_key));
         long long pidx = pr.first > 2000000000u ? -2 : (long long) pr.first;
         Wide<K> origin = (Wide<K>) pr.second + (Wide<K>) first_key;
         long long porig = origin > (Wide<K>) std::numeric_limits<K>::max() ? -2 : nm(origin);
@@ -248,8 +271,10 @@ void run_compressed(const VPlan &pl) {
     }
     o.end();
     if (res != "ok") { out.begin("End").end(); return; }
-    for (auto q : queries) {
-        auto r = idx->search(q);
+    std::vector<std::unique_ptr<P>> fresh;
+    for (auto &qp : query_plan(idx.get(), queries, data, rng, fresh)) {
+        K q = qp.first;
+        auto r = qp.second->search(q);
         out.begin("Search").num("q", nm((Wide<K>) q)).num("pos", clampll(r.pos)).num("lo", clampll(r.lo)).num("hi", clampll(r.hi))
             .raw("route", "[]").num("bk", -1).num("seg", -1).raw("sl", "[]").raw("pr", "[]").end();
     }
@@ -293,6 +318,21 @@ void drive(const Plan &p, uint64_t salt, int exhaustive_level, size_t eps, bool 
             }
 }
 
+// levels of many more segments than the routing window holds: random / stepped data with Epsilon 1 give a segment every few
+// keys, and an EpsilonRecursive just above the linear-scan threshold selects the windowed binary search on every level
+template<typename F>
+void drive_long_levels(const Plan &p, uint64_t salt, size_t nmin, size_t nmax, F &&run) {
+    Rng rng(p.seed ^ salt);
+    const std::vector<std::string> kinds = {"random", "steps", "runs", "sawtooth"};
+    int reps = p.tier == "quick" ? 1 : 4;
+    for (int rep = 0; rep < reps; ++rep)
+        for (size_t i = 0; i < kinds.size(); ++i) {
+            int where = std::vector<int>{0, 2, 5, 1}[(i + (size_t) rep) % 4];
+            VPlan pl{kinds[i], nmin + rng.below(nmax - nmin), where, {kinds[i], "long_levels"}, rng.next(), {}};
+            run(pl);
+        }
+}
+
 int main(int argc, char **argv) {
     Args a(argc, argv);
     install_crash_handlers();
@@ -313,6 +353,9 @@ int main(int argc, char **argv) {
     drive(p, 20, 1, 1, true, [](const VPlan &pl) { run_compressed<uint8_t, 1, 1>(pl); });
     drive(p, 21, 1, 2, true, [](const VPlan &pl) { run_compressed<uint16_t, 2, 1>(pl); });
     drive(p, 22, 0, 4, false, [](const VPlan &pl) { run_compressed<uint64_t, 4, 256>(pl); });
+    drive_long_levels(p, 23, 700, 2500, [](const VPlan &pl) { run_compressed<uint64_t, 1, 65>(pl); });
+    drive_long_levels(p, 24, 1500, 4000, [](const VPlan &pl) { run_compressed<uint32_t, 1, 129>(pl); });
+    drive_long_levels(p, 25, 700, 2500, [](const VPlan &pl) { run_compressed<uint64_t, 2, 8>(pl); });
 #elif PART == 1  // Bucketing
     drive(p, 31, 2, 1, false, [](const VPlan &pl) { run_bucketing<uint32_t, 1, 4, 32>(pl); });
     drive(p, 32, 1, 1, false, [](const VPlan &pl) { run_bucketing<uint32_t, 1, 3, 0>(pl); });
